@@ -477,7 +477,7 @@ def oracle(case, res, dump):
         # --- a leaver that was told stops before the transition (leaveNetwork: StopAt(transition time - 1))
         for i, (x, via_core) in left.items():
             if cur["up"][i] and cur["r"] >= x["tr"] and op.startswith("step"):
-                flag("R.leaver-running", f"op {k} ({op}): node {i} left the group at the resharing of epoch {x['id']} (transition round {x['tr']}) and was told so"
+                flag("R.leaver-running" + ("-core" if via_core else ""), f"op {k} ({op}): node {i} left the group at the resharing of epoch {x['id']} (transition round {x['tr']}) and was told so"
                                          + (" through core.onDKGCompleted" if via_core else "") + f"; at clock round {cur['r']} its beacon handler is still running"
                                          + (f" with the vault of epoch {cur['ep'][i]}" if cur.get("ep") else ""))
         # --- switch point
@@ -663,7 +663,7 @@ def is_late_class(rule):
 
 def no_retry(rule):
     """classes that do not depend on scheduling (the known findings): nothing to retry or to confirm alone"""
-    return is_late_class(rule) or rule == "R.leaver-running"
+    return is_late_class(rule) or rule == "R.leaver-running-core"
 
 
 def run_with_retries(case, maxwait, quiet, model, retries=2):
